@@ -163,7 +163,10 @@ def process_chunk(args: Tuple[List[Dict[str, Any]], int, int]) -> Dict[str, Any]
         if not has_kind(ps, ("MATCHING-REQUEST-PARAM",)):
             entries.append(("request", rq_obj, None))
         dem = has_kind(ps, ("demfield",))
-        explicit = any(p["bp"] >= 0 for p in ps[1:]) or has_kind(ps, ("LENGTH-KEY",))
+        # (where the decoder's cursor ends up says nothing if objects are positioned explicitly or a switch key lies behind
+        # the content it selects; the reference's "highest byte reached" is checked on the design instead)
+        explicit = any(p["bp"] >= 0 for p in ps[1:]) or has_kind(ps, ("LENGTH-KEY",)) or \
+            any(p["dop"].get("k") == "mux" and p["dop"]["kbp"] > p["dop"]["bp"] for p in ps)
         for (entry, obj, rq) in entries:
             results: Dict[str, Dict[str, Any]] = {}
             static = obj.get_static_bit_length()
